@@ -1,0 +1,25 @@
+//go:build verif
+
+package verifapi
+
+import "github.com/deepteams/webp/internal/lossy"
+
+// Macroblock modes of partition 0 at byte level (suite boolcoder, ops
+// bmodeprob / modeemit / modeparse).
+
+type (
+	MBModeIn  = lossy.VerifMBModeIn
+	ModesIn   = lossy.VerifModesIn
+	MBModeOut = lossy.VerifMBModeOut
+)
+
+// EmitModes is lossy.VerifEmitModes: the real emitPartition0 with the real writeMBModes.
+func EmitModes(in *ModesIn) []byte { return lossy.VerifEmitModes(in) }
+
+// ParseModes is lossy.VerifParseModes: the real parseHeaders + parseIntraModeRow.
+func ParseModes(payload []byte) ([]MBModeOut, int, int, string, bool) {
+	return lossy.VerifParseModes(payload)
+}
+
+// KBModesProba is lossy.KBModesProba[top][left][i].
+func KBModesProba(top, left, i int) uint8 { return lossy.VerifKBModesProba(top, left, i) }
